@@ -9,7 +9,8 @@ MODULE = "D42.Props.C12All"
 THEOREMS = ["subst_error_kind", "fromNativeS_error_kind", "subst_any_nonempty", "subst_listE_exact",
             "subst_idempotent_scalar", "subst_idempotent", "subst_result_subAccepts", "subst_fromNative_self",
             "subst_idempotent_nan_counterexample",
-            "fromNative_eq_extracted", "subst_scalar_eq_extracted"]
+            "fromNative_eq_extracted", "subst_scalar_eq_extracted",
+            "extracted_scalar_subst_spec"]
 FILES = ["D42/Model/Data.lean", "D42/Model/Validate.lean", "D42/Model/Subst.lean", "D42/Props/C14.lean", "D42/Props/C12.lean", "D42/Props/C05.lean", "D42/Props/C12Idem.lean",
          "D42/Model/CheckProg.lean", "D42/Model/SubstProg.lean", "D42/Gen/SubstProg.lean", "D42/Props/SubstProg.lean", "D42/Props/C12All.lean"]
 
